@@ -170,8 +170,11 @@ def mkcase(rng, regime, nframes=None, force_df=None):
         if hx[0] == "8" and rng.random() < 0.2 and int(hx[:2], 16) >> 3 == 17:
             # corrupt a DF17 frame (1-3 bit flips outside the DF field): must not be returned
             x = int(hx, 16)
-            for p in rng.sample(range(0, 107), rng.choice((1, 2, 3))):
-                x ^= 1 << p
+            if rng.random() < 0.4:
+                x ^= rng.choice((1, 2, 3, 1 << rng.randrange(24)))   # error confined to the parity field: tiny remainder
+            else:
+                for p in rng.sample(range(0, 107), rng.choice((1, 2, 3))):
+                    x ^= 1 << p
             hx = "%028X" % x
             valid = False
         frames.append({"hex": hx, "amp": amps[k], "gap": rng.choice((240, 250, 300, 500, rng.randint(240, 900))) + rng.randrange(2),
